@@ -56,6 +56,13 @@ def scenario_ops(name, nd, nblk=8):
         pre = [[('write', d, 'a', det_bytes('%s/a3' % d, nblk * BS - 5 * i)) for i, d in enumerate(disks[:-1])]]
         pend = [('write', disks[-1], 'n', det_bytes('%s/n3' % disks[-1], (nblk // 2) * BS + 9))]
         return pre, pend
+    if name == 'wipe':
+        # EVERY file of the last data disk is removed (needs sync -E / --force-empty): its blocks become DELETED in stripes shared
+        # with the synced files of the other disks, whose parity has to be recomputed; nothing else changes
+        pre = [[('write', d, 'a', det_bytes('%s/aw' % d, nblk * BS - 9 * i)) for i, d in enumerate(disks[:-1])] +
+               [('write', disks[-1], 'a', det_bytes('%s/aw' % disks[-1], (nblk - 2) * BS)), ('write', disks[-1], 'sub/b', det_bytes('%s/bw' % disks[-1], BS + 3))]]
+        pend = [('remove', disks[-1], 'a'), ('remove', disks[-1], 'sub')]
+        return pre, pend
     if name == 'mixed':
         # adds + deletes + updates
         pre = [[('write', d, 'a', det_bytes('%s/a' % d, (nblk // 2) * BS)) for d in disks] +
